@@ -85,7 +85,7 @@ def floors(tier):
             "counters": {"enc_cases": 32768, "dec_cases": 20_000 if tier == "quick" else 500_000, "corpus_records": 50_000,
                          "contract:record_roundtrip": 32768, "contract:record_decode": 100_000,
                          "dec_with_uninterpreted_before_interpreted": 1000,
-                         "enc_cases_with_a_zero_id": 3000, "dec_cases_with_a_zero_id": 5000, "enc_cases_with_16_17_digit_payload": 500}}
+                         "enc_cases_with_a_zero_id": 3000, "dec_cases_with_a_zero_id": 5000, "dec_cases_with_long_coefficient": 3000, "dec_cases_with_coefficient_above_2_112": 500, "enc_cases_with_16_17_digit_payload": 500, "enc_cases_with_aware_datetime": 300}}
 
 
 def plan(tier, seed):
@@ -126,12 +126,24 @@ def payload_value(kind, rng):
     if kind == "text":
         return rng.choice(["hello", "", "a\nb", "é𝔘", "x" * 300, " "]) + str(rng.randrange(100))
     if kind == "date":
-        return datetime(2001, 1, 1) + timedelta(seconds=rng.randrange(-3 * 10 ** 9, 3 * 10 ** 9))
+        v = datetime(2001, 1, 1) + timedelta(seconds=rng.randrange(-3 * 10 ** 9, 3 * 10 ** 9))
+        if rng.random() < .15:
+            # a time-zone-aware value names an instant; the record holds that instant (seconds from the epoch, UTC; TZ is pinned to UTC)
+            from datetime import timezone
+            v = v.replace(tzinfo=timezone(timedelta(minutes=rng.choice([0, 330, -480, 60, 765, -210]))))
+        return v
     if kind == "bool":
         return rng.random() < .5
     if kind == "duration":
         return timedelta(seconds=rng.randrange(-10 ** 8, 10 ** 8), milliseconds=rng.randrange(1000))
     return None
+
+
+def naive_utc(v):
+    if v.tzinfo is None:
+        return v
+    from datetime import timezone
+    return v.astimezone(timezone.utc).replace(tzinfo=None)
 
 
 def make_cell(kind, value, stub):
@@ -199,8 +211,8 @@ def enc_case(kind, mask, salt, value, rec, stub):
             if not d128.same_number(d128.decode(r["d128"]), d128.exact_of_float(value)):
                 v("enc_payload", {"payload": "d128"}, {"value": repr(value), "decoded": str(d128.decode(r["d128"]))})
         elif kind == "date" and "seconds" in r:
-            if datetime(2001, 1, 1) + timedelta(seconds=r["seconds"]) != value:
-                v("enc_payload", {"payload": "seconds"}, {"value": repr(value), "seconds": r["seconds"]})
+            if datetime(2001, 1, 1) + timedelta(seconds=r["seconds"]) != naive_utc(value):
+                v("enc_payload", {"payload": "seconds", "aware": value.tzinfo is not None}, {"value": repr(value), "seconds": r["seconds"]})
         elif kind == "bool" and "double" in r:
             if (r["double"] > 0) != value:
                 v("enc_payload", {"payload": "bool"}, {"value": value, "double": r["double"]})
@@ -224,7 +236,11 @@ def enc_case(kind, mask, salt, value, rec, stub):
         if getattr(c2, a) != ids.get(a):
             v("lib_roundtrip_id", {"field": a[1:]}, {"want": ids.get(a), "got": getattr(c2, a), "mask": hex(mask)})
             break
-    if kind in ("number", "currency", "text", "date", "bool", "duration"):
+    if kind == "date" and value.tzinfo is not None:
+        rec.count("enc_cases_with_aware_datetime")
+        if c2.value != naive_utc(value):
+            v("lib_roundtrip_value", {"payload": "date-aware"}, {"want": repr(naive_utc(value)), "got": repr(c2.value)})
+    elif kind in ("number", "currency", "text", "date", "bool", "duration"):
         if c2.value != value or (isinstance(value, float) and repr(float(c2.value)) != repr(float(value))):
             v("lib_roundtrip_value", {"payload": kind}, {"want": repr(value), "got": repr(c2.value)})
     rec.case(("enc", kind, mask), nontrivial=nopt > 0)
@@ -258,7 +274,18 @@ def dec_case(kind, flags_np, extra_payload_bits, salt, rec, stub, rng):
         if not flags & bit:
             continue
         if name == "d128":
-            fields[name] = d128.encode(Decimal(rng.randrange(0, 10 ** 9)) / Decimal(100))
+            c_ = rng.random()
+            if c_ < .5:
+                fields[name] = d128.encode(Decimal(rng.randrange(0, 10 ** 9)) / Decimal(100))
+            else:
+                # the full width of the format: up to 34 digits (as Numbers writes 2/3), incl. coefficients at and above 2**112
+                nd = rng.choice([17, 18, 25, 33, 34, 34])
+                coeff = rng.randrange(10 ** (nd - 1), 10 ** nd) if c_ < .8 else rng.randrange(1 << 112, 10 ** 34)
+                # built from its parts: arithmetic on Decimal would round to the context's 28 digits
+                fields[name] = d128.encode(Decimal((1 if rng.random() < .5 else 0, tuple(int(ch) for ch in str(coeff)), rng.randrange(-40, 6))))
+                if coeff >= 1 << 112:
+                    rec.count("dec_cases_with_coefficient_above_2_112")
+                rec.count("dec_cases_with_long_coefficient")
         elif name in ("double", "seconds"):
             fields[name] = float(rng.randrange(0, 10 ** 8))
         else:
